@@ -170,6 +170,7 @@ PROPS = {
                 "distinct = distinct case line",
         "assumptions": ["input is ASCII (bytes = characters); SEQRES / DBREF / SEQADV / MODRES / SSBOND are covered by the reader-model correspondence in C05's malformed stream, not by the record specification",
                         "insertion codes that differ only in case are not generated for one residue number (the reader keys residues by the raw character and stores it upper-cased)",
+                        "a residue key that comes back later in the chain always carries the same residue name: a residue holding conformers of several names together with blank alternate locations is not generated (which blank conformer is shared out is not fixed by the property; the specification shares out a single one)",
                         "a truncated atom line keeps at least 7 characters (a bare 'ATOM  ' is not a record for the reader and is skipped without a diagnostic)",
                         "the whole-file refinement theorem read_pdb (render recs) = denote recs is not proved (proved: field and line read-back, the grouping and the simulation of the specification walk on runs of coordinate and TER records; not proved: MODEL boundaries, metadata records, the passes after the loop); the two are compared on every generated text"],
     },
